@@ -82,7 +82,9 @@ func (e *Exec) cancelFunc(site string, c *vctx) context.CancelFunc {
 		if c.err != nil {
 			return
 		}
-		e.point(&op{kind: opNone, site: site, what: "cancel"})
+		if !e.inHook {
+			e.point(&op{kind: opNone, site: site, what: "cancel"})
+		}
 		e.cancelCtx(c, context.Canceled)
 	}
 }
